@@ -103,6 +103,68 @@ func init() {
 			}
 			out += fmt.Sprintf("/-- %s %s (regexp source) -/\ndef %s : String := %s\n\n", c.file, c.name, c.lean, LeanString(v))
 		}
+		// updater/osv (*ecs).LookupRepository: repository name -> URI
+		{
+			_, f, err := ParseFile(repo, "updater/osv/osv.go")
+			if err != nil {
+				return "", err
+			}
+			fd := FuncDecl(f, "ecs", "LookupRepository")
+			if fd == nil {
+				return "", fmt.Errorf("updater/osv/osv.go: (*ecs).LookupRepository not found")
+			}
+			var sw *ast.SwitchStmt
+			nsw := 0
+			ast.Inspect(fd, func(n ast.Node) bool {
+				if s, ok := n.(*ast.SwitchStmt); ok {
+					sw = s
+					nsw++
+				}
+				return true
+			})
+			if nsw != 1 {
+				return "", fmt.Errorf("LookupRepository: expected one switch, found %d", nsw)
+			}
+			if id, ok := sw.Tag.(*ast.Ident); !ok || id.Name != "name" {
+				return "", fmt.Errorf("LookupRepository: switch is not on name")
+			}
+			out += "/-- updater/osv/osv.go (*ecs).LookupRepository: repository name ↦ URI -/\ndef osvRepoURIs : List (String × String) := ["
+			first := true
+			for _, c := range sw.Body.List {
+				cc := c.(*ast.CaseClause)
+				if cc.List == nil {
+					return "", fmt.Errorf("LookupRepository: unexpected default clause")
+				}
+				if len(cc.Body) != 1 {
+					return "", fmt.Errorf("LookupRepository: case body is not one assignment")
+				}
+				as, ok := cc.Body[0].(*ast.AssignStmt)
+				if !ok || len(as.Lhs) != 1 || len(as.Rhs) != 1 {
+					return "", fmt.Errorf("LookupRepository: case body is not one assignment")
+				}
+				if sel, ok := as.Lhs[0].(*ast.SelectorExpr); !ok || sel.Sel.Name != "URI" {
+					return "", fmt.Errorf("LookupRepository: assignment is not to .URI")
+				}
+				bl, ok := as.Rhs[0].(*ast.BasicLit)
+				if !ok || bl.Kind != token.STRING {
+					return "", fmt.Errorf("LookupRepository: URI is not a literal")
+				}
+				uri, _ := strconv.Unquote(bl.Value)
+				for _, e := range cc.List {
+					kl, ok := e.(*ast.BasicLit)
+					if !ok || kl.Kind != token.STRING {
+						return "", fmt.Errorf("LookupRepository: case label is not a literal")
+					}
+					k, _ := strconv.Unquote(kl.Value)
+					if !first {
+						out += ", "
+					}
+					first = false
+					out += "(" + LeanString(k) + ", " + LeanString(uri) + ")"
+				}
+			}
+			out += "]\n\n"
+		}
 		return out + Footer("Feeds"), nil
 	}})
 }
